@@ -54,6 +54,10 @@ type FS struct {
 	handles map[*file_]struct{} // open files of this generation; the OS closes them when the process dies
 	once    sync.Once
 	Why     atomic.Value // string: what killed this generation
+	// Countable, if set, selects the mutating calls that are numbered (and can be the crash or error point). A harness
+	// whose crash points must land at the same place in every replay restricts them to calls the code under test waits
+	// for (write-ahead log writes and syncs); pebble's background flushes run on their own goroutines at their own pace.
+	Countable func(kind, name string) bool
 }
 
 // Crashed is closed when this generation died at its crash point (or by Die).
@@ -168,6 +172,9 @@ func (f *FS) alive() bool {
 func (f *FS) step(kind, name string) error {
 	if !f.alive() {
 		halt()
+	}
+	if f.Countable != nil && !f.Countable(kind, name) {
+		return nil // not a call crash points are counted in (see Countable)
 	}
 	f.smu.Lock()
 	n := f.ops.Add(1)
